@@ -1108,7 +1108,7 @@ def translate_kfn(fn):
             got = ty_of(v)
             if rt == 'num':
                 return as_num(v)
-            if rt == 'struct':
+            if rt.startswith('struct'):
                 if v[0] != 'struct':
                     raise Untranslatable('the sink is not a constructor call')
                 return pr(v)
@@ -1125,7 +1125,8 @@ def translate_kfn(fn):
                 if t[2].fields[a] is not fields[a]:
                     raise Untranslatable('attribute write')
             return ('(.ok %s)' % val(t[1])) if exc else val(t[1])
-        lt = {'num': 'α', 'int': 'Int', 'dict:num': 'Qs.Weights α', 'struct': 'Qs.Txn α', 'list:str': 'List String', 'str': 'String'}[rt]
+        lt = {'num': 'α', 'int': 'Int', 'dict:num': 'Qs.Weights α', 'struct': 'Qs.Txn α', 'list:str': 'List String', 'str': 'String',
+              'struct:Xfer': 'Qs.Broker.Xfer α'}[rt]
         rty = ('Except Err (%s)' % lt) if exc else lt
         body = pr_tree(tree, leaf, 1)
         return 'def %s%s : %s :=\n  %s\n' % (fn.lean.split('.')[-1], binders, rty, body), None
@@ -1168,6 +1169,29 @@ def _master_sink(cu, s, ctx):
     if type(s.op) not in ops:
         raise Untranslatable('augmented assignment %s' % type(s.op).__name__)
     return ('bin', ops[type(s.op)], cu.ev(s.target, ctx, 0), cu.ev(s.value, ctx, 0))
+
+
+def _xfer_sink(method):
+    """sink of a broker-to-portfolio transfer: the call `self.portfolios[portfolio_id].<method>(dt, amount)` is remembered, and the
+    statement writing the master balance yields (new master balance, amount handed to the portfolio, time handed to it)"""
+    def sink(cu, s, ctx):
+        if isinstance(s, ast.Expr) and isinstance(s.value, ast.Call) and ast.unparse(s.value.func) == 'self.portfolios[portfolio_id].' + method:
+            if len(s.value.args) != 2 or s.value.keywords:
+                raise Untranslatable('%s call shape' % method)
+            if ctx.fields.get('__pfcall__') is not None:
+                raise Untranslatable('the portfolio is credited / debited twice')
+            ctx.fields['__pfcall__'] = (cu.ev(s.value.args[0], ctx, 0), cu.ev(s.value.args[1], ctx, 0))
+            return None
+        m = _master_sink(cu, s, ctx)
+        if m is None:
+            return None
+        call = ctx.fields.get('__pfcall__')
+        if call is None:
+            raise Untranslatable('the master balance is written before the portfolio is credited / debited')
+        if ty_of(call[0]) != 'int' or ty_of(call[1]) not in ('num', 'int'):
+            raise Untranslatable('%s(%s, %s)' % (method, ty_of(call[0]), ty_of(call[1])))
+        return ('struct', 'Xfer', [('master', 'num', m), ('amount', 'num', call[1]), ('time', 'int', call[0])])
+    return sink
 
 
 def _txn_sink(cu, s, ctx):
@@ -1226,6 +1250,24 @@ KFNS = [
         ret='exc:num', kind='kernel', sink=_master_sink, expr_subst={'self.cash_balances[self.base_currency]': V('master', 'num')},
         statement='(master amount : α) :\n    GEN master amount = Qs.Broker.withdrawAccountMaster master amount',
         defs=['Qs.Broker.withdrawAccountMaster']),
+    KFn('Broker.subscribePortfolio', 'qstrader/broker/simulated_broker.py', 'SimulatedBroker', 'subscribe_funds_to_portfolio',
+        'Broker.subscribePortfolio', binders=[('pids', 'List String'), ('clock', 'Int'), ('master', 'α'), ('pid', 'String'), ('amount', 'α')],
+        fields=dict(current_dt=V('clock', 'int')), params=[('portfolio_id', V('pid', 'str')), ('amount', V('amount', 'num'))],
+        ret='exc:struct:Xfer', kind='kernel', sink=_xfer_sink('subscribe_funds'),
+        expr_subst={'self.cash_balances[self.base_currency]': V('master', 'num'), 'self.portfolios.keys()': ('lst', 'pids', ELEM_STR)},
+        statement='(pids : List String) (clock : Int) (master : α) (pid : String) (amount : α) :\n'
+                  '    GEN pids clock master pid amount = Qs.Broker.subscribePortfolioXfer (pids.contains pid) clock master amount',
+        defs=['Qs.Broker.subscribePortfolioXfer']),
+    KFn('Broker.withdrawPortfolio', 'qstrader/broker/simulated_broker.py', 'SimulatedBroker', 'withdraw_funds_from_portfolio',
+        'Broker.withdrawPortfolio',
+        binders=[('pids', 'List String'), ('clock', 'Int'), ('master', 'α'), ('pfCash', 'α'), ('pid', 'String'), ('amount', 'α')],
+        fields=dict(current_dt=V('clock', 'int')), params=[('portfolio_id', V('pid', 'str')), ('amount', V('amount', 'num'))],
+        ret='exc:struct:Xfer', kind='kernel', sink=_xfer_sink('withdraw_funds'),
+        expr_subst={'self.cash_balances[self.base_currency]': V('master', 'num'), 'self.portfolios.keys()': ('lst', 'pids', ELEM_STR),
+                    'self.portfolios[portfolio_id].cash': V('pfCash', 'num')},
+        statement='(pids : List String) (clock : Int) (master pfCash : α) (pid : String) (amount : α) :\n'
+                  '    GEN pids clock master pfCash pid amount = Qs.Broker.withdrawPortfolioXfer (pids.contains pid) clock master pfCash amount',
+        defs=['Qs.Broker.withdrawPortfolioXfer']),
     KFn('DW.checkBuffer', 'qstrader/portcon/order_sizer/dollar_weighted.py', 'DollarWeightedCashBufferedOrderSizer', '_check_set_cash_buffer',
         'DW.checkBuffer', binders=[('b', 'α')], fields={}, params=[('cash_buffer_percentage', V('b', 'num'))], ret='exc:num',
         statement='(b : α) :\n    GEN b = Qs.dwCheckBuffer b', defs=['Qs.dwCheckBuffer']),
